@@ -153,6 +153,59 @@ pub enum WOp
     DropSysRc(u8),
     /// `Commands::insert_system(slot entity, callee)` into spawned-system slot k
     InsertSys(u8, Slot, u8),
+    /// Component accessor called from a one-shot system (C14): which accessor, entity slot, component, new value.
+    Acc(AccKind, Slot, C, u8),
+    /// Resource accessor / world-level resource API (C14).
+    ResAcc(ResAccKind, R, u8),
+    /// Move a reactive component the documented way: take `React<C>` off `from`, `rc.insert(to, react.take())`.
+    Move(Slot, Slot, C),
+}
+
+/// Component accessors other than the `ReactiveMut` ones used by `Op::Mutate` & co.
+#[derive(Clone, Copy, Debug, PartialEq, Eq, Hash, Serialize, Deserialize)]
+pub enum AccKind
+{
+    /// `Query<&mut React<C>>` + `React::get_mut(&mut commands)`: triggers
+    QGetMut,
+    /// `React::set_if_neq`: triggers iff different, returns the old value
+    QSetIfNeq,
+    /// `React::get_noreact`: never triggers
+    QNoreact,
+    /// `Query<&React<C>>` + `React::get` / deref: never triggers
+    QRead,
+    /// `Reactive::get`: never triggers
+    RoRead,
+    /// `ReactiveMut::single_mut` (only called when exactly one entity has the component): triggers
+    SingleMut,
+    /// `ReactiveMut::single_noreact`
+    SingleNoreact,
+    /// `ReactiveMut::set_single_if_not_eq`
+    SingleSetIfNeq,
+    /// `ReactiveMut::single`
+    SingleRead,
+    /// `Reactive::single`
+    RoSingle,
+}
+
+#[derive(Clone, Copy, Debug, PartialEq, Eq, Hash, Serialize, Deserialize)]
+pub enum ResAccKind
+{
+    /// `world.react_resource_mut_noreact()`: sets the value, never triggers
+    WorldNoreact,
+    /// `world.get_react_resource_noreact()`
+    WorldGetNoreact,
+    /// `world.react_resource()` / `get_react_resource()`
+    WorldRead,
+    /// `ReactRes<R>` system parameter (read)
+    ParamRead,
+    /// `world.insert_react_resource(value)`: replaces the value, never triggers
+    WorldInsert,
+    /// `commands.insert_react_resource(value)`
+    CmdInsert,
+    /// `world.init_react_resource()` / `commands.init_react_resource()`: nothing happens, the resource exists
+    Init,
+    /// `world.get_react_resource_or_insert_with(|| value)`: the resource exists, returns the current value
+    GetOrInsertWith,
 }
 
 /// Entry points of the syscall family.
